@@ -80,6 +80,13 @@ func (p *Persister) Serialize() ([]byte, error) {
 
 // Deserialize decodes the state and cache from storage, and applies them to the persister.
 func (p *Persister) Deserialize(b []byte) error {
+	if p.Memory != nil {
+		// the decoder merges into maps that are already populated, including those a Reset or
+		// Pop left behind in the backing array of the scope list: nothing of what the
+		// persister held before (another session, when it is reused) may survive a load
+		p.Memory.Cache = nil
+		p.Memory.Sizes = make(map[string]uint16)
+	}
 	err := cbor.Unmarshal(b, p)
 	return err
 }
